@@ -22,9 +22,11 @@
  *   passive ops (no token):  G<db> | P<pw> | M<mtime> | M!      (formats of gids_harness.c)
  *                            H<j>/<acts>/<acts>/<acts>/[f<k>]    hooks T/G/E and fault of the j-th refresh that
  *                                                               starts from now on; acts '+'-separated:
- *                                                               G.. P.. M.. S c<ms> A
- *   active ops:              t<ms> clock := ms | S gids_update | A sweep     then the timer thread comes to rest
- *   tokens:  s<id>@<now>+<ms>  c<id>=<ret>  f<id>@<now>  r<stat called><build attempted>  hT hG hE  a<bits>
+ *                                                               G.. P.. M.. S c<delta ms> t<ms> A
+ *   active ops:              t<ms> clock := ms | c<d> clock += d | S gids_update | A sweep;  then the timer
+ *                            thread comes to rest
+ *   tokens:  s<id>@<now>+<ms>  c<id>=<ret>  u (gids_update returned)  f<id>@<now>
+ *            o (the scan opens the databases)  r<stat called><build attempted>  hT hG hE  a<bits>
  *            `|` after every active op; at the end d<id>=<ret> (the cancel made by gids_destroy) or d-, then `.`
  * Each case runs in a forked child.                                                                            */
 #define _GNU_SOURCE 1
@@ -172,7 +174,10 @@ static size_t entry_need (const struct fent *e) {
     for (i = 0; i < e->nmem; i++) n += strlen (e->mem[i]) + 1;
     return n;
 }
-void __wrap_setgrent (void) { scan_db = cur_db; scan_pw = cur_pw; gr_pos = 0; n_calls = 0; e_parked = 0; n_setgrent++; }
+void __wrap_setgrent (void) {
+    scan_db = cur_db; scan_pw = cur_pw; gr_pos = 0; n_calls = 0; e_parked = 0; n_setgrent++;
+    pthread_mutex_lock (&em); emit ("o"); pthread_mutex_unlock (&em);
+}
 void __wrap_endgrent (void) { }
 
 int __wrap_getgrent_r (struct group *grp, char *buf, size_t buflen, struct group **result) {
@@ -242,9 +247,14 @@ struct inst { callback_f cb; void *arg; long id; struct inst *next; };
 static struct inst *insts;
 static int destroying, destroy_logged;
 
+static int driver_busy;      /* a gids_update made by the driver at top level has not returned yet: the callback's
+                                first action is to take the gids mutex, which gids_update holds to its end, so
+                                holding the callback here until gids_update has returned changes nothing but
+                                makes the order of the log entries deterministic */
 static void tramp (void *a) {
     struct inst *in = a;
     pthread_mutex_lock (&em);                              /* the set that created us has logged its result */
+    while (driver_busy) { pthread_mutex_unlock (&em); usleep (100); pthread_mutex_lock (&em); }
     emit ("f%ld@%ld", in->id, now_ms ());
     cur_ord = n_started++;
     pthread_mutex_unlock (&em);
@@ -294,8 +304,13 @@ static void do_act (char *a) {
     case 'G': parse_db (a + 1); break;
     case 'P': parse_pw (a + 1); break;
     case 'M': if (a[1] == '!') f_stat_fail = 1; else { f_stat_fail = 0; f_mtime = (time_t) atoll (a + 1); } break;
-    case 'S': gids_update (gids); break;
-    case 'c': case 't': set_clock_ms (atol (a + 1)); break;
+    case 'S':
+        pthread_mutex_lock (&em); driver_busy = 1; pthread_mutex_unlock (&em);
+        gids_update (gids);
+        pthread_mutex_lock (&em); emit ("u"); driver_busy = 0; pthread_mutex_unlock (&em);
+        break;
+    case 't': set_clock_ms (atol (a + 1)); break;
+    case 'c': set_clock_ms (now_ms () + atol (a + 1)); break;
     case 'A': sweep (); break;
     default: pthread_mutex_lock (&em); emit ("?%s", a); pthread_mutex_unlock (&em);
     }
@@ -352,6 +367,7 @@ static void run_case (char *line) {
     vnow.tv_sec = 0; vnow.tv_nsec = 0;
     parse_db ("-"); parse_pw ("-"); f_mtime = 0; f_stat_fail = 0;
     gids = gids_create (interval, dostat);                 /* munged: gids_create before timer_init */
+    emit ("u");                                            /* gids_create ends with gids_update */
     while (!bad && (tok = strtok_r (NULL, " ", &save))) {
         switch (tok[0]) {
         case 'G': case 'P': case 'M': do_act (tok); break;
@@ -365,7 +381,7 @@ static void run_case (char *line) {
             for (i = 0; i < 3; i++) h->acts[i] = f[i + 1];
             h->fault = f[4][0] == 'f' ? atoi (f[4] + 1) : -1;
             break; }
-        case 't': case 'S': case 'A':
+        case 't': case 'c': case 'S': case 'A':
             do_act (tok);
             if (run_to_rest () < 0) { pthread_mutex_lock (&em); emit ("!norest"); pthread_mutex_unlock (&em); bad = 1; break; }
             pthread_mutex_lock (&em); emit ("|"); pthread_mutex_unlock (&em);
@@ -400,7 +416,7 @@ int main (void) {
         pid = fork ();
         if (pid == 0) {
             close (fd[0]); dup2 (fd[1], 1); close (fd[1]);
-            signal (SIGALRM, on_alarm); alarm (20);
+            signal (SIGALRM, on_alarm); alarm (10);
             run_case (line); _exit (0);
         }
         close (fd[1]);
